@@ -210,7 +210,9 @@ def run_trm_case(case):
         if left or extra:
             verdict = {"class": "temporary_leaked", "detail": "client history %s (%s): still on disk after the client is gone and the tracker has "
                        "shut down: %s" % (case["ops"], how, (left or extra)[:4]), "sig": {"what": "temporary_leaked", "client_end": how}}
-        dg = hashlib.sha256(repr((lines, left)).encode()).hexdigest()
+        import re as _re
+        norm = lambda t: _re.sub(r"_\d+_[0-9a-f]{32}_", "_PID_UUID_", t.replace(root, "<root>"))     # run-specific names out of the digest
+        dg = hashlib.sha256(norm(repr((lines, left))).encode()).hexdigest()
         kinds = "".join(o[0][0] for o in case["ops"])
         return {"verdict": verdict, "digest": dg[:24], "shape": "trm:" + hashlib.md5(repr(case["ops"]).encode()).hexdigest()[:12], "steps": len(lines),
                 "switches": 0, "sim_time": 0.0, "faults": {"client_killed" if how == "kill" else "client_exit": 1},
